@@ -57,6 +57,16 @@ class K:
         """Method m."""
         return 1
 '''
+COMPAT = '''"""Compatibility helpers (reached through the symlink c20pkg/compat.py)."""
+
+
+def h(x):
+    """Function h.
+
+    Second line of the docstring.
+    """
+    return x
+'''
 BAD = "def f(:\n    pass\n"
 
 GIT_ENV = {
@@ -108,6 +118,9 @@ def build_template(dst: str, ignored: bool) -> str:
     _write(os.path.join(dst, PKG, "__init__.py"), PUBLIC)
     _write(os.path.join(dst, PRIV, "__init__.py"), API1)
     _write(os.path.join(dst, PKG, "sub.py"), SUB)
+    # a module of the public package that is a SYMLINK tracked in git to a file of the private package
+    _write(os.path.join(dst, PRIV, "compat_impl.py"), COMPAT)
+    os.symlink(os.path.join("..", PRIV, "compat_impl.py"), os.path.join(dst, PKG, "compat.py"))
     git(dst, "add", "-A")
     git(dst, "commit", "-q", "-m", "c3: API 1", date=3)
     git(dst, "tag", "v1")
